@@ -68,7 +68,7 @@ CHECKS.update({
             "Coq proof (form agreement) + enumeration of all forwarding impls in the harness + model correspondence", "§3 C17"),
     "C20": ("proof", "theorems: models of + - % comparisons conversions do not depend on the profile at all (every overflow explicit after the fix: "
             "commits); round, unary operations, rounding and 256-bit kernels equal profile-free functions; * / *_rounded quantize accepted in every "
-            "profile; opt-level and packed layout are outside the model: differential builds (quick: dev, release, each with and without packed; thorough: 16 configurations) (partial)",
+            "profile, and all of them equal closed-form functions that do not mention the profile (identical outcome in every profile, also at the coefficient -2^127); opt-level and packed layout are outside the model: differential builds (quick: dev, release, each with and without packed; thorough: 16 configurations) (partial)",
             "Coq proof (profile-quantified theorems) + differential builds of the harness compared with each other and with the model", "§3 C20"),
 })
 
